@@ -35,6 +35,9 @@ class LoopCtx:
 
 
 def loop_spec(eng, node):
+    own = getattr(node, '_pyvc_loop_spec', None)       # a loop of an inlined callee that has its own contract: that contract's invariant
+    if own is not None:
+        return own, getattr(node, '_pyvc_loop_label', None)
     k = getattr(node, '_pyvc_loop', None)
     if k is None or eng.current is None:
         return None, k
@@ -103,7 +106,7 @@ def _emit_inv(eng, ctx, spec, lc, label, k):
     hyps = list(ctx.pc) + list(eng.hyps_extra)     # evaluated after the clauses: boxing facts included
     from .engine import Oblig
     for name, t in clauses.items():
-        eng.obligs.append(Oblig('loop%d.%s.%s' % (k, label, name), hyps, t, (), 'loop', info={'bundle': _bundle_n[0]}))
+        eng.obligs.append(Oblig('loop%s.%s.%s' % (k, label, name), hyps, t, (), 'loop', info={'bundle': _bundle_n[0]}))
 
 
 def _assume_inv(eng, ctx, spec, lc):
